@@ -122,6 +122,43 @@ def h_grid(sx, cfg):
         vv = arrays["valid"][1][cid]
         sx.check(f"valid{idx}", sx.eq(sx.ne(vv, 0), sx.truth(valid[idx])))
     sx.check("source-untouched", sx.eq(f.array, arr))
+    # history: values and validity edited in place after a conversion; the next conversion shows the current state
+    w = sx.real("w")
+    first = (0, 0, 0)
+    f.array[first + (0,)] = w
+    flipped = not sx.decide(sx.truth(valid[first]))
+    f.valid[first] = flipped
+    with _env(sx):
+        rgrid2 = f.to_vtk()
+        dims2, coords2, arrays2, active2 = _grid_view(sx, rgrid2)
+    fld2 = np.asarray(arrays2["field"][1], dtype=object).reshape(ncell, nv)
+    sx.check("after-in-place-edit-field", sx.eq(fld2[0, 0], w, scale=0.0))
+    sx.check("after-in-place-edit-valid", sx.eq(sx.ne(arrays2["valid"][1][0], 0), flipped))
+    if nv > 1 and f.vdims[0] in arrays2:
+        sx.check("after-in-place-edit-component", sx.eq(arrays2[f.vdims[0]][1][0], w, scale=0.0))
+
+
+def h_txt_anisotropic(sx, cfg):
+    """text form on strongly anisotropic meshes (thin film, long wire): every coordinate and value keeps ten significant digits (native)"""
+    df = lib.load()
+    with sx.native():
+        rng = np.random.default_rng(8)
+        for p1, p2, n in (((0.0, 0.0, 0.0), (1.2345678e-3, 2.3456789e-3, 3.3333333e-9), (2, 3, 2)), ((-5.4321e-9, 1.111111e-9, 0.0), (4.32109e-9, 7.7777777e-9, 9.87654321e-4), (3, 1, 2)),
+                          ((1.0e2, -3.3333333e-7, 5.0), (1.00000123e2, 6.6666667e-7, 5.5), (1, 2, 2))):
+            mesh = df.Mesh(p1=p1, p2=p2, n=n)
+            f = df.Field(mesh, nvdim=3, value=rng.normal(size=(*n, 3)) * 1e5)
+            with tempfile.TemporaryDirectory() as d:
+                fn = os.path.join(d, "thin.vtk")
+                f.to_file(fn, representation="txt")
+                g = df.Field.from_file(fn)
+            tag = f"{n}"
+            ok = tuple(int(x) for x in g.mesh.n) == n
+            for a in range(3):
+                ok = ok and abs(g.mesh.region.pmin[a] - mesh.region.pmin[a]) <= 2e-9 * max(abs(mesh.region.pmin[a]), abs(mesh.region.pmax[a]))
+                ok = ok and abs(g.mesh.region.pmax[a] - mesh.region.pmax[a]) <= 2e-9 * max(abs(mesh.region.pmin[a]), abs(mesh.region.pmax[a]))
+                ok = ok and abs(g.mesh.cell[a] - mesh.cell[a]) <= 1e-6 * mesh.cell[a]
+            sx.check(f"geometry-to-ten-digits{tag}", bool(ok), got=str((list(g.mesh.region.pmin), list(g.mesh.region.pmax))))
+            sx.check(f"values-to-ten-digits{tag}", bool(np.allclose(g.array, f.array, rtol=2e-9, atol=0)))
 
 
 def h_roundtrip(sx, cfg):
@@ -249,6 +286,7 @@ def tasks(tier):
                     continue
                 t.append(dict(harness="h_roundtrip", cfg=dict(n=list(n), nvdim=nv, labels=lab, rep=rep if rep != "bin" or i % 2 else "bin8", subregions=subs.get(n, []) if i % 2 else []), limits=big))
     t.append(dict(harness="h_refuse", cfg={}))
+    t.append(dict(harness="h_txt_anisotropic", cfg={}))
     for n, nv, pmin, cell in (((3, 2, 2), 1, [0.0, -1e-9, 5e-9], [1e-9, 2e-9, 2.5e-9]), ((2, 3, 1), 3, [-4.0, 0.5, 0.0], [2.0, 0.5, 1e-9]), ((4, 1, 1), 3, [0.0, 0.0, 0.0], [1e-9, 1e-9, 1e-9])):
         t.append(dict(harness="h_legacy", cfg=dict(n=list(n), nvdim=nv, pmin=pmin, cell=cell)))
     return t
